@@ -322,7 +322,7 @@ func parseFields(line string) ([]string, error) {
 			if c == '"' || c == '\'' {
 				quote = c
 			} else {
-				field = append(field, c)
+				p--	// first byte of an unquoted field: handle it as field content
 			}
 			inField = true
 		}
